@@ -267,6 +267,30 @@ def fam_lowerfix(tier, route, lo, hi):
         yield call_case('lowerfix', 'LEN', [s], s)
 
 
+# TRIM removes the space character only: other white space stays where it is
+TRIM_WS = ('\ta', 'a\n', '\xa0a b\xa0', ' \ta ', '\u3000a', 'a \n', '\n',
+           ' a\tb ', '\xa0')
+# texts that are not in Unicode composed form: a base letter and a combining
+# mark are two characters
+A_COMB = ('e', '\u0301', 'a')
+
+
+def fam_special(tier, route, lo, hi):
+    for s in TRIM_WS:
+        yield call_case('special', 'TRIM', [s], s)
+        yield call_case('special', 'LEN', [s], s)
+    for s in gt.texts(3, A_COMB):
+        yield call_case('special', 'LEN', [s], s)
+        yield call_case('special', 'LEFT', [s, 1], s)
+        yield call_case('special', 'RIGHT', [s, 1], s)
+        yield call_case('special', 'MID', [s, 2, 1], s)
+        yield call_case('special', 'FIND', ['\u0301', s], s)
+        for t in ('e', '\u0301'):
+            yield mk('id-len-concat', F('LEN', ['&', s, t]),
+                     {'identity:len-concat', 'text:combining-mark'}, True,
+                     mode='eq', rhs=['+', F('LEN', s), F('LEN', t)])
+
+
 def fam_trim(tier, route, lo, hi):
     for s in trim_texts(tier, route)[lo:hi]:
         yield call_case('trim', 'TRIM', [s], s)
@@ -524,7 +548,7 @@ def fam_cellref(tier, route, lo, hi):
 
 
 FAMILIES = {
-    'lowerfix': fam_lowerfix,
+    'lowerfix': fam_lowerfix, 'special': fam_special,
     'unary': fam_unary, 'trim': fam_trim, 'leftright': fam_leftright,
     'mid': fam_mid, 'find': fam_find, 'replace': fam_replace,
     'pair': fam_pair, 'idlr': fam_idlr, 'idml': fam_idml, 'conv': fam_conv,
@@ -560,6 +584,7 @@ def plan(tier):
             for lo in range(start, sizes[fam], step):
                 shards.append({'fam': fam, 'route': route, 'lo': lo,
                                'hi': min(sizes[fam], lo + step)})
+        shards.append({'fam': 'special', 'route': route, 'lo': 0, 'hi': 1})
         nlow = gt.count(3, len(A_LOWER))
         for lo in range(0, nlow, 90):
             shards.append({'fam': 'lowerfix', 'route': route, 'lo': lo,
@@ -571,6 +596,7 @@ def plan(tier):
             for lo in range(0, gt.count(L), step):
                 shards.append({'fam': 'find', 'route': route, 'lo': lo,
                                'hi': min(gt.count(L), lo + step), 'block': b})
+    shards.append({'fam': 'casepair', 'route': 'formula', 'lo': 0, 'hi': 0})
     nconv = len(conv_exprs())
     for route in ('call', 'formula', 'cell'):
         for lo in range(0, nconv, 150):
@@ -583,7 +609,54 @@ def plan(tier):
     return shards
 
 
+# two formulas of ONE model whose texts differ only in the case of a text
+# literal: each keeps its own literal
+CASE_PAIRS = (
+    (F('FIND', 'M', 'Miriam McGovern'), F('FIND', 'm', 'Miriam McGovern')),
+    (F('EXACT', 'Word', 'word'), F('EXACT', 'word', 'word')),
+    (F('LEFT', 'abC', 3), F('LEFT', 'ABC', 3)),
+    (['&', 'a', 'B'], ['&', 'A', 'b']),
+    (F('LOWER', 'Ab'), F('LOWER', 'aB')),
+    (F('LEN', 'straße'), F('LEN', 'STRASSE')),
+    (F('MID', 'xYz', 2, 1), F('MID', 'XyZ', 2, 1)),
+)
+
+
+def run_casepairs(ctx):
+    for pi, pair in enumerate(CASE_PAIRS):
+        for order in ((0, 1), (1, 0)):
+            exprs = [pair[k] for k in order]
+            cells = {'Sheet1!Z%d' % (k + 1): '=' + render(e)
+                     for k, e in enumerate(exprs)}
+            try:
+                model = lib.compile_dict(cells)
+            except Exception as exc:  # noqa: BLE001
+                ctx.fail('C17/casepair/%d/%s/compile' % (pi, order),
+                         ['family:case-pair'], {'fam': 'casepair'},
+                         'compiles', lib.exc_obs(exc))
+                continue
+            ev = lib.Evaluator(model)
+            for k, e in enumerate(exprs):
+                got = lib.eval_addr(model, 'Sheet1!Z%d' % (k + 1), ev)
+                want = lib.norm(ref_value(e))
+                ctx.check('C17/casepair/%d/%d%d/%s' % (
+                    pi, order[0], order[1], render(e)), got, want,
+                    ['family:case-pair', 'position:%d' % k],
+                    {'fam': 'casepair'}, True)
+
+
+def ref_value(e):
+    if isinstance(e, list) and e and e[0] == 'f':
+        return ref._FUNCS[e[1]](*[ref_value(a) for a in e[2]])
+    if isinstance(e, list) and e and e[0] == '&':
+        return ref.CONCAT(ref_value(e[1]), ref_value(e[2]))
+    return e
+
+
 def run_shard(shard, ctx):
+    if shard['fam'] == 'casepair':
+        run_casepairs(ctx)
+        return
     fam, route = shard['fam'], shard['route']
     kw = {'block': shard['block']} if 'block' in shard else {}
     last_lhs, last_got = None, None
@@ -604,6 +677,9 @@ def run_shard(shard, ctx):
 
 
 def replay(inputs, ctx):
+    if inputs.get('fam') == 'casepair':
+        run_casepairs(ctx)
+        return
     case = {k: inputs[k] for k in ('fam', 'mode', 'lhs', 'rhs', 'const',
                                    'tags', 'nontrivial')}
     judge(ctx, case, inputs['route'])
